@@ -9,6 +9,7 @@ import (
 	"fmt"
 	"os"
 	"runtime"
+	"sort"
 	"strings"
 	"sync"
 
@@ -26,6 +27,8 @@ type op struct {
 	Fact    map[string]interface{} `json:"fact,omitempty"`
 	Pattern map[string]interface{} `json:"pattern,omitempty"`
 	Res     map[string]interface{} `json:"res,omitempty"`
+	// ViaJS: the fact is written by a script (Env.AddFact), as a rule action would write it
+	ViaJS bool `json:"via_js,omitempty"`
 }
 
 // hasIndexableTerm mirrors the documented indexing rule (strings that are not
@@ -113,6 +116,7 @@ func main() {
 					o.Id = ""
 				}
 				o.Fact = genFact(g)
+				o.ViaJS = o.Id != "" && g.Intn(5) == 0
 			case k == 7 && g.Intn(3) == 0:
 				// an overwrite that indexed state refuses (a rule whose `when` holds an
 				// unsortable array): what is stored and searchable must not change
@@ -145,6 +149,7 @@ func main() {
 				if g.Intn(40) == 0 {
 					o.Pattern = map[string]interface{}{}
 				}
+				o.ViaJS = g.Intn(5) == 0
 			}
 			if o.Fact != nil && (!gen.InFragmentLoose(o.Fact) || gen.HasVarString(o.Fact)) {
 				s--
@@ -269,7 +274,18 @@ func step(r *rep.Report, locs map[string]*core.Location, m *ref.Loc, run *[]op, 
 		res := map[string]string{}
 		errs := map[string]string{}
 		for _, k := range drv.Kinds {
-			id, err := locs[k].AddFact(drv.Ctx(), o.Id, core.Map(ref.CloneMap(o.Fact)))
+			var id string
+			var err error
+			if o.ViaJS {
+				fj, _ := json.Marshal(o.Fact)
+				idj, _ := json.Marshal(o.Id)
+				var x interface{}
+				x, err = locs[k].RunJavascript(drv.Ctx(), "Env.AddFact("+string(idj)+", "+string(fj)+")", nil, nil, nil)
+				id = fmt.Sprint(x)
+				r.Count("facts_written_by_a_script", 1)
+			} else {
+				id, err = locs[k].AddFact(drv.Ctx(), o.Id, core.Map(ref.CloneMap(o.Fact)))
+			}
 			res[k], errs[k] = id, drv.ErrStr(err)
 		}
 		r.Case(written[wantId], "add"+ref.Canon(wit(nil)))
@@ -388,6 +404,26 @@ func step(r *rep.Report, locs map[string]*core.Location, m *ref.Loc, run *[]op, 
 					what += " (a result does not match or is not stored)"
 				}
 				r.Violate("", what, wit(rep.J{"state": k, "got": got[k], "want": want}))
+				continue
+			}
+			if o.ViaJS {
+				// the same search issued by a script finds the same facts
+				pj, _ := json.Marshal(o.Pattern)
+				x, jerr := locs[k].RunJavascript(drv.Ctx(), "var fs = Env.Search("+string(pj)+").Found; var ids = []; for (var i = 0; i < fs.length; i++) { ids.push(fs[i].Id); }; ids.sort(); JSON.stringify(ids)", nil, nil, nil)
+				r.Count("searches_issued_by_a_script", 1)
+				seen := map[string]bool{}
+				wantIds := []string{}
+				for _, w := range want {
+					if id := strings.SplitN(w, "|", 2)[0]; !seen[id] {
+						seen[id] = true
+						wantIds = append(wantIds, id)
+					}
+				}
+				sort.Strings(wantIds)
+				wj, _ := json.Marshal(wantIds)
+				if jerr != nil || fmt.Sprint(x) != string(wj) {
+					r.Violate("", "a search issued by a script (Env.Search) does not find what the same search finds when issued directly", wit(rep.J{"state": k, "script_result": fmt.Sprint(x), "script_error": drv.ErrStr(jerr), "want_ids": wantIds}))
+				}
 			}
 		}
 		if len(want) > 0 && r.WantSample() {
